@@ -45,9 +45,56 @@ Mixed4 == {[w |-> ww, arb |-> aa, aof |-> pp, c0 |-> <<0, 0, 0, 0>>] :
              ww \in {<<1, 1, 1, 1>>, <<1, 0, 2, 1>>}, aa \in {<<0, 0, 0, 0>>, <<0, 0, 0, 1>>},
              pp \in {<<a, b, c, d>> : a \in {S, P(2, 0, 2)}, b \in {S, P(1, 6, 1)}, c \in {S, P(15, 3, 0)}, d \in {S}}}
 
+\* ---- configurations in which the election majority need not contain the newest data member: there the
+\* refusal "my log is newer" (ERR_REJECT) is the only guard (switch RejectVetoes of Election).
+\* Positions: POLD is a whole file behind PNEW but has the larger offset (file index against offset, finding A21);
+\* PMID / PNEW differ in the offset only; PWOLD is older than PNEW across the index wrap-around.
+POLD == P(1, 6, 1)
+PMID == P(2, 0, 2)
+PNEW == P(2, 3, 2)
+PWOLD == P(15, 3, 0)
+\* 3 members, exhaustive: one arbiter next to a stale and a fresh data member (majority 2 = {stale, arbiter}),
+\* and all-data clusters whose newest member has weight 0 (never proposed, so it always refuses)
+Veto3 == {[w |-> <<1, 1, 1>>, arb |-> <<0, 0, 1>>, aof |-> <<PNEW, POLD, POLD>>, c0 |-> <<0, 0, 0>>],
+          [w |-> <<1, 2, 1>>, arb |-> <<1, 0, 0>>, aof |-> <<Z, PMID, PNEW>>, c0 |-> <<0, 0, 0>>],
+          [w |-> <<0, 1, 1>>, arb |-> <<0, 0, 0>>, aof |-> <<PNEW, PMID, POLD>>, c0 |-> <<0, 0, 0>>],
+          [w |-> <<1, 0, 2>>, arb |-> <<0, 0, 0>>, aof |-> <<POLD, PMID, POLD>>, c0 |-> <<0, 0, 0>>],
+          [w |-> <<1, 1, 0>>, arb |-> <<0, 0, 0>>, aof |-> <<PMID, PMID, PNEW>>, c0 |-> <<0, 1, 0>>]}
+\* 5 members = 3 data members + 2 arbiters (replication quorum = leader + ONE follower; election majority 3 =
+\* {lagging follower, arbiter, arbiter}); member 1 plays the crashed leader's role only in so far as its messages may
+\* all be lost.  The arbiters sit at different places of the member list (scan order, host tie-break).
+Arb5Slice == {[w |-> <<1, 1, 1, 1, 1>>, arb |-> <<0, 0, 0, 1, 1>>, aof |-> <<PNEW, PNEW, POLD, Z, Z>>, c0 |-> <<0, 0, 0, 0, 0>>],
+              [w |-> <<1, 1, 1, 1, 1>>, arb |-> <<1, 0, 1, 0, 0>>, aof |-> <<Z, PMID, Z, PNEW, PMID>>, c0 |-> <<0, 0, 0, 0, 0>>]}
+Arb5 == {[w |-> ww, arb |-> aa, aof |-> pp, c0 |-> cc] :
+           ww \in {<<1, 1, 1, 1, 1>>, <<2, 1, 1, 1, 1>>, <<1, 0, 1, 1, 2>>},
+           aa \in {<<0, 0, 0, 1, 1>>, <<1, 0, 1, 0, 0>>, <<0, 1, 0, 0, 1>>, <<0, 0, 0, 0, 1>>},
+           pp \in Tup5({POLD, PMID, PNEW, PWOLD}),
+           cc \in {<<0, 0, 0, 0, 0>>, <<0, 1, 0, 0, 1>>}}
+Arb4 == {[w |-> ww, arb |-> aa, aof |-> pp, c0 |-> <<0, 0, 0, 0>>] :
+           ww \in {<<1, 1, 1, 1>>, <<0, 1, 2, 1>>, <<1, 1, 0, 1>>}, aa \in {<<0, 0, 0, 1>>, <<1, 0, 0, 0>>, <<0, 1, 0, 1>>},
+           pp \in {<<a, b, c, d>> : a \in {POLD, PNEW}, b \in {POLD, PMID, PNEW}, c \in {PMID, PNEW, PWOLD}, d \in {POLD}}}
+Arb3 == {[w |-> ww, arb |-> aa, aof |-> pp, c0 |-> <<0, 0, 0>>] :
+           ww \in Tup3({0, 1, 2}), aa \in {<<0, 0, 0>>, <<0, 0, 1>>, <<1, 0, 0>>, <<0, 1, 0>>}, pp \in Tup3({POLD, PMID, PNEW})}
+
 \* weighted random gates for -simulate (a message is lost with probability ~ 1/6, a restart is rare)
 SimLoseOK(c, m) == Lose /\ RandomElement(1..10) <= 2
 SimRestartOK(x) == RandomElement(1..12) = 1
+
+\* gates of the generators "sim*h": the messages between a candidate and a data member whose log is newer than
+\* the candidate's own are mostly lost in the VOTE round (so the fresher member is not seen there) and hardly ever
+\* later (so it answers the PROPOSAL round); everything else is lost rarely, so that candidacies run to the end
+\* (an arbiter candidate has no log of its own: then "newer than the log of some other data member")
+Fresher(c, m) == /\ cfg.arb[m] = 0 /\ m # c
+                 /\ IF cfg.arb[c] = 0 THEN CmpTrue(cfg.aof[m], cfg.aof[c]) > 0
+                    ELSE \E x \in Members \ {m} : cfg.arb[x] = 0 /\ CmpTrue(cfg.aof[m], cfg.aof[x]) > 0
+HideLoseOK(c, m) == Lose /\ IF cand[c].ph = "vote" THEN (IF Fresher(c, m) THEN RandomElement(1..10) <= 8 ELSE RandomElement(1..10) <= 1)
+                            ELSE IF cand[c].ph = "prop" THEN (IF Fresher(c, m) THEN FALSE ELSE RandomElement(1..12) <= 1)
+                            ELSE RandomElement(1..12) <= 1
+HideRestartOK(x) == RandomElement(1..40) = 1
+
+\* 5-member runs of the quick tier: only the messages between the candidate and the DATA members get lost (the
+\* arbiters always answer); the thorough tier loses any subset
+DataLoseOK(c, m) == Lose /\ cfg.arb[m] = 0
 
 \* counterexample hunt for the restart finding (A7): only the messages between the two candidates get lost
 HuntLoseOK(c, m) == (c = 1 /\ m = 3) \/ (c = 3 /\ m = 1)
